@@ -234,6 +234,31 @@ fn language_job(ctx: &Ctx, job: usize, iters: u64) -> Stats {
             };
             st.bump("quantifier_over_the_fixed_point_variable_only");
         }
+        if rng.chance(1, 10) {
+            // the RENAMING idiom: a bound variable equated with another one, which an inner
+            // quantifier of the body binds again around an occurrence of the outer variable
+            let v = names[rng.usize(k)];
+            let mut w = names[rng.usize(k)];
+            if w == v {
+                w = names[(names.iter().position(|x| *x == v).unwrap() + 1) % k];
+            }
+            let q1 = *rng.pick(&["exists", "forall", "any", "all"]);
+            let q2 = *rng.pick(&["exists", "forall"]);
+            let tie = match rng.below(4) {
+                0 => format!("({} <=> {})", v, w),
+                1 => format!("({} <=> {})", w, v),
+                2 => format!("({} iff {})", v, w),
+                _ => format!("-({} ^ {})", v, w),
+            };
+            let inner_op = *rng.pick(&["^", "|", "&", "=>", "<=>"]);
+            let glue = *rng.pick(&["&", "=>", "|", "and"]);
+            body = match rng.below(3) {
+                0 => format!("{} {} # {} {} ({} {} # (({} {} {}) & ({})))", q1, v, tie, glue, q2, w, v, inner_op, w, body),
+                1 => format!("{} {} # {} {} (zz | {} {}, {} # (({} {} {}) & {}))", q1, v, tie, glue, q2, names[rng.usize(k)], w, v, inner_op, w, w),
+                _ => format!("{} {} # ({} {} # ({} {} {})) {} {}", q1, v, q2, w, v, inner_op, w, glue, tie),
+            };
+            st.bump("renaming_idiom_with_an_inner_binder");
+        }
         if rng.chance(1, 12) {
             // the existential and the universal quantification of ONE body side by side
             let v: Vec<&str> = (0..1 + rng.usize(2)).map(|_| names[rng.usize(k)]).collect();
